@@ -370,7 +370,25 @@ func auPayload(r *Rand, wantGood bool, out *Out) []byte {
 		}
 	}
 	forged := auEntry{"__qi_auth_state", auValU32(3)}
-	switch r.Intn(16) {
+	switch r.Intn(18) {
+	case 16, 17:
+		// a pair the authenticator refuses that differs from one it accepts by white space around the strings only
+		o.Count("payload:accepted-pair-with-white-space")
+		ws := []string{"\n", "\r\n", " ", "\t", "\u00a0", "\u0085", "  "}[r.Intn(7)]
+		good := [][2]string{{"alice", "secret"}, {"bob", ""}, {"", "anon"}}[r.Intn(3)]
+		u, tk := good[0], good[1]
+		switch r.Intn(4) {
+		case 0:
+			tk += ws
+		case 1:
+			u = ws + u
+		case 2:
+			u += ws
+			tk = ws + tk
+		default:
+			tk = ws + tk + ws
+		}
+		return auMap(shuffle(append(extras(), auEntry{"auth_user", auValStr(u)}, auEntry{"auth_token", auValStr(tk)})))
 	case 14, 15:
 		// a pair the authenticator refuses, whose user and token written one after the other read like a pair it
 		// accepts (which another connection may just have presented)
